@@ -58,7 +58,8 @@ def site(acc):
 
 
 def in_repo(st):
-    return bool(st) and st[1].startswith("/repo/") and not st[1].startswith("/repo/zzverif/")
+    repo = os.environ.get("VERIF_REPO", "/repo").rstrip("/") + "/"
+    return bool(st) and st[1].startswith(repo) and not st[1].startswith(repo + "zzverif/")
 
 
 def classify(block):
